@@ -57,6 +57,23 @@ func genContent(rng *rand.Rand, n int, kind int, s int) []byte {
 		if n > 2 && rng.Intn(2) == 0 {
 			b[n-1], b[n-2] = 0, 0
 		}
+	case 4: // constant non-zero fill: every slice equals the previous one, the partial last slice is its prefix
+		for i := range b {
+			b[i] = 0xFF
+		}
+	case 5: // periodic: a fixed-width record repeated (period divides the slice size where it can)
+		per := []int{1, 2, 4, 8}[rng.Intn(4)]
+		if s%per != 0 {
+			per = 1
+		}
+		rec := make([]byte, per)
+		rng.Read(rec)
+		if rec[0] == 0 {
+			rec[0] = 0x5A
+		}
+		for i := range b {
+			b[i] = rec[i%per]
+		}
 	}
 	return b
 }
@@ -250,7 +267,7 @@ func makeScenario(rng *rand.Rand, idx int, thorough bool) *scenario {
 		}
 		total += n
 		sc.names = append(sc.names, name)
-		sc.prot[name] = genContent(rng, n, rng.Intn(4), sc.s)
+		sc.prot[name] = genContent(rng, n, rng.Intn(6), sc.s)
 	}
 	// keep the slice count moderate for tiny slice sizes
 	nsl := 0
